@@ -142,7 +142,12 @@ def _(E, m, a, c0):
     mm = re.search(r'parse::<(\w+)>', c0) or re.search(r'^<(\w+) as FromStr', c0)
     if not mm: raise Missing('str::parse with unknown target ' + c0)
     ty = mm.group(1); r, cs = sref(E, a[0])
-    if ty in ('f64', 'f32'): raise Missing('float parsing (std dec2flt) is outside the model')
+    if ty in ('f64', 'f32'):
+        # digit strings only: the nearest double to the integer they spell (the same uninterpreted rounding as BigInt::to_f64); anything else is outside the model
+        from .models import UF_BIG2F
+        okk, val = parse_int(E, cs, allow_sign=True)
+        if not okk: raise Missing('float parsing (std dec2flt) of a non-integer text is outside the model')
+        return ok(F64(3, UF_BIG2F(val), z3.BoolVal(False)))
     okk, val = parse_int(E, cs, allow_sign=True)
     if not okk: return err(Opaque('ParseError'))
     if ty != 'BigInt':
